@@ -903,9 +903,11 @@ func (r *Reader) processHeading(h headingXML) parsedParagraph {
 	}
 
 	// Parse outline level
+	explicitLevel := false
 	if h.OutlineLevel != "" {
 		if level, err := strconv.Atoi(h.OutlineLevel); err == nil && level >= 1 && level <= 9 {
 			parsed.Level = level
+			explicitLevel = true
 		}
 	}
 
@@ -913,8 +915,9 @@ func (r *Reader) processHeading(h headingXML) parsedParagraph {
 	if r.styleResolver != nil {
 		resolved := r.styleResolver.Resolve(h.StyleName)
 		parsed.Alignment = resolved.Alignment
-		// If style has heading level, prefer that
-		if resolved.IsHeading && resolved.HeadingLevel > 0 {
+		// The heading's own text:outline-level is the level as authored; the level
+		// guessed from the style is only used when the element carries none
+		if !explicitLevel && resolved.IsHeading && resolved.HeadingLevel > 0 {
 			parsed.Level = resolved.HeadingLevel
 		}
 	}
